@@ -1,5 +1,197 @@
-import Arp.Model.Arith
-import Arp.Spec.Ops
+import Arp.Props.SpecRound
+import Arp.Props.C01
+import Arp.Props.C06
+import Arp.Props.C08
+import Arp.Props.C10
+import Arp.Lemmas.Canonical
+/-!
+# C02 — overflow saturates to infinity or the largest finite value as the mode dictates
+
+Two layers:
+* about the rounding specification alone (`Arp.SpecRound`, re-exported here): the overflow
+  table, the exact threshold at which each mode class reaches it, "no spurious infinity",
+  and that the saturated value is the canonical all-ones significand at `emax`;
+* about the operations: every rounding operation of the model equals `Spec.round` of its
+  exact result (C01, C06, C08, C10), so each inherits those facts; the corollaries below
+  state "the result is an infinity **iff** the exact result is at/above the threshold of
+  the mode" for multiplication, division, cast, scale and the integer loads, and the same
+  for sums through `Spec.roundQ`.
+-/
 namespace Arp.C02
-theorem smoke : (1:Nat) + 1 = 2 := rfl
+open Arp.SpecRound
+
+/-- The overflow table of the property text. -/
+theorem overflow_table (F : Sem) (rm : RM) (neg : Bool) :
+    Spec.overflow F rm neg =
+      if rm = .none ∨ rm = .nte ∨ rm = .nta ∨ rm.awayFor neg then Res.inf neg
+      else Res.fin neg F.emax (2 ^ F.p - 1) := Arp.SpecRound.overflow_table rm neg
+
+/-- The largest finite number is the all-ones significand at the maximum exponent, in
+    canonical form (as a model value: what `overflow()` builds). -/
+theorem largest_finite_canonical (x : Flt) (rm : RM) (hF : x.sem.WF) :
+    (x.overflow rm).Canonical ∧
+      ((x.overflow rm).toRes = .inf x.sign ∨ (x.overflow rm).toRes = .fin x.sign x.sem.emax (2 ^ x.sem.p - 1)) := by
+  refine ⟨overflow_canonical x rm hF, ?_⟩
+  rw [overflow_toRes x rm (by have := hF.2; omega), Arp.SpecRound.overflow_table]
+  split
+  · left; rfl
+  · right; rfl
+
+/-- `Spec.round` yields an infinity exactly at/above the threshold of the mode class. -/
+theorem round_inf_iff {F : Sem} {q : ℚ} (hF : F.WF) (hq : 0 < q) (rm : RM) (neg s : Bool) :
+    Spec.round F rm neg q = .inf s ↔
+      (s = neg ∧ ((rm = .none ∧ (2:ℚ) ^ (F.emax + 1) ≤ q) ∨ (rm.awayFor neg ∧ maxFinite F < q) ∨
+        ((rm = .nte ∨ rm = .nta) ∧ nearThreshold F ≤ q))) := round_eq_inf_iff hF hq rm neg s
+
+/-- a result that rounds to a finite in-range value is never replaced by infinity -/
+theorem no_spurious_infinity {F : Sem} {q : ℚ} (hF : F.WF) (hq : 0 < q) (rm : RM) (neg s : Bool)
+    (h : Spec.round F rm neg q = .inf s) :
+    s = neg ∧ (rm.truncFor neg → (2:ℚ) ^ (F.emax + 1) ≤ q) ∧ (rm.awayFor neg → maxFinite F < q) ∧
+      (rm = .nte ∨ rm = .nta → nearThreshold F ≤ q) := no_spurious_inf hF hq rm neg s h
+
+/-- the result is the table value iff the exact magnitude is at/above the mode's threshold -/
+theorem round_overflow_iff {F : Sem} {q : ℚ} (hF : F.WF) (hq : 0 < q) (rm : RM) (neg : Bool) :
+    Spec.round F rm neg q = Spec.overflow F rm neg ↔
+      ((rm = .none ∧ (2:ℚ) ^ (F.emax + 1) ≤ q) ∨
+       (rm.truncFor neg ∧ rm ≠ .none ∧ maxFinite F ≤ q) ∨
+       (rm.awayFor neg ∧ maxFinite F < q) ∨
+       ((rm = .nte ∨ rm = .nta) ∧ nearThreshold F ≤ q)) := round_overflow_iff_partial hF hq rm neg
+
+/-! ### the operations inherit the table -/
+
+private theorem mag_pos_of_canonical {x : Flt} (hx : x.cat = .normal) (hc : x.Canonical) : 0 < x.mag := by
+  obtain ⟨_, _, h3, _, _⟩ := (Flt.canonical_normal hx).mp hc
+  rw [Flt.mag_eq]
+  have : (0:ℚ) < x.mant := by exact_mod_cast h3
+  positivity
+
+/-- multiplication of finite non-zero operands overflows to infinity iff the exact product
+    is at/above the threshold of the mode -/
+theorem mul_inf_iff (a b : Flt) (rm : RM) (s : Bool) (hF : a.sem.WF) (hs : b.sem = a.sem)
+    (ha : a.Canonical) (hb : b.Canonical) (han : a.cat = .normal) (hbn : b.cat = .normal) :
+    (mulWithRm a b rm).toRes = .inf s ↔
+      (s = (a.sign ^^ b.sign) ∧
+        ((rm = .none ∧ (2:ℚ) ^ (a.sem.emax + 1) ≤ a.mag * b.mag) ∨
+         (rm.awayFor (a.sign ^^ b.sign) ∧ maxFinite a.sem < a.mag * b.mag) ∨
+         ((rm = .nte ∨ rm = .nta) ∧ nearThreshold a.sem ≤ a.mag * b.mag))) := by
+  rw [C01.mul_correct a b rm hF hs ha hb]
+  have hq : 0 < a.mag * b.mag := mul_pos (mag_pos_of_canonical han ha) (mag_pos_of_canonical hbn hb)
+  have : Spec.mul a.sem rm a b = Spec.round a.sem rm (a.sign ^^ b.sign) (a.mag * b.mag) := by
+    simp [Spec.mul, Spec.isNan, Spec.isInf, Spec.isZero, han, hbn]
+  rw [this]
+  exact round_inf_iff hF hq rm _ s
+
+/-- division of finite non-zero operands -/
+theorem div_inf_iff (a b : Flt) (rm : RM) (s : Bool) (hF : a.sem.WF) (hs : b.sem = a.sem)
+    (ha : a.Canonical) (hb : b.Canonical) (han : a.cat = .normal) (hbn : b.cat = .normal) :
+    (divWithRm a b rm).toRes = .inf s ↔
+      (s = (a.sign ^^ b.sign) ∧
+        ((rm = .none ∧ (2:ℚ) ^ (a.sem.emax + 1) ≤ a.mag / b.mag) ∨
+         (rm.awayFor (a.sign ^^ b.sign) ∧ maxFinite a.sem < a.mag / b.mag) ∨
+         ((rm = .nte ∨ rm = .nta) ∧ nearThreshold a.sem ≤ a.mag / b.mag))) := by
+  rw [C01.div_correct a b rm hF hs ha hb]
+  have hq : 0 < a.mag / b.mag := div_pos (mag_pos_of_canonical han ha) (mag_pos_of_canonical hbn hb)
+  have : Spec.div a.sem rm a b = Spec.round a.sem rm (a.sign ^^ b.sign) (a.mag / b.mag) := by
+    simp [Spec.div, Spec.isNan, Spec.isInf, Spec.isZero, han, hbn]
+  rw [this]
+  exact round_inf_iff hF hq rm _ s
+
+/-- cast of a finite non-zero value into `G` -/
+theorem cast_inf_iff (x : Flt) (G : Sem) (rm : RM) (s : Bool) (hF : x.sem.WF) (hG : G.WF)
+    (hc : x.Canonical) (hx : x.cat = .normal) :
+    (x.castWithRm G rm).toRes = .inf s ↔
+      (s = x.sign ∧
+        ((rm = .none ∧ (2:ℚ) ^ (G.emax + 1) ≤ x.mag) ∨
+         (rm.awayFor x.sign ∧ maxFinite G < x.mag) ∨
+         ((rm = .nte ∨ rm = .nta) ∧ nearThreshold G ≤ x.mag))) := by
+  rw [C06.cast_correct x G rm hF hG hc]
+  have : Spec.cast G rm x = Spec.round G rm x.sign x.mag := by simp [Spec.cast, hx]
+  rw [this]
+  exact round_inf_iff hG (mag_pos_of_canonical hx hc) rm _ s
+
+/-- `scale(k)` of a finite non-zero value -/
+theorem scale_inf_iff (x : Flt) (k : Int) (rm : RM) (s : Bool) (hF : x.sem.WF)
+    (hc : x.Canonical) (hx : x.cat = .normal) :
+    (x.scale k rm).toRes = .inf s ↔
+      (s = x.sign ∧
+        ((rm = .none ∧ (2:ℚ) ^ (x.sem.emax + 1) ≤ x.mag * (2:ℚ) ^ k) ∨
+         (rm.awayFor x.sign ∧ maxFinite x.sem < x.mag * (2:ℚ) ^ k) ∨
+         ((rm = .nte ∨ rm = .nta) ∧ nearThreshold x.sem ≤ x.mag * (2:ℚ) ^ k))) := by
+  rw [C10.scale_correct x k rm hF hc]
+  have : Spec.scaleExact rm k x = Spec.round x.sem rm x.sign (x.mag * (2:ℚ) ^ k) := by
+    simp [Spec.scaleExact, hx]
+  rw [this]
+  have hq : 0 < x.mag * (2:ℚ) ^ k := mul_pos (mag_pos_of_canonical hx hc) (by positivity)
+  exact round_inf_iff hF hq rm _ s
+
+/-- loading a non-zero big integer in the format's own mode -/
+theorem fromBigint_inf_iff (F : Sem) (n : Nat) (s : Bool) (hF : F.WF) (hn : n ≠ 0) :
+    (fromBigint F n).toRes = .inf s ↔
+      (s = false ∧
+        ((F.rm = .none ∧ (2:ℚ) ^ (F.emax + 1) ≤ (n:ℚ)) ∨
+         (F.rm.awayFor false ∧ maxFinite F < (n:ℚ)) ∨
+         ((F.rm = .nte ∨ F.rm = .nta) ∧ nearThreshold F ≤ (n:ℚ)))) := by
+  rw [C08.fromBigint_correct F n hF, C08.fromNat_pos F F.rm n hn]
+  have hq : (0:ℚ) < n := by exact_mod_cast Nat.pos_of_ne_zero hn
+  exact round_inf_iff hF hq F.rm false s
+
+/-- `from_u64` always rounds to nearest even: infinity iff `n` is at/above the nearest threshold -/
+theorem fromU64_inf_iff (F : Sem) (n : Nat) (s : Bool) (hF : F.WF) (hn : n ≠ 0) (h64 : n < 2 ^ 64) :
+    (fromU64 F n).toRes = .inf s ↔ (s = false ∧ nearThreshold F ≤ (n:ℚ)) := by
+  rw [C08.fromU64_correct F n hF h64, C08.fromNat_pos F .nte n hn]
+  have hq : (0:ℚ) < n := by exact_mod_cast Nat.pos_of_ne_zero hn
+  rw [round_inf_iff hF hq .nte false s]
+  constructor
+  · rintro ⟨h1, h2⟩
+    refine ⟨h1, ?_⟩
+    rcases h2 with ⟨h, _⟩ | ⟨h, _⟩ | ⟨_, h⟩
+    · exact absurd h (by decide)
+    · exact absurd h (by unfold RM.awayFor; simp)
+    · exact h
+  · rintro ⟨h1, h2⟩
+    exact ⟨h1, Or.inr (Or.inr ⟨Or.inl rfl, h2⟩)⟩
+
+/-- a non-zero sum of finite operands: the result is `Spec.round` of `|a + b|` with the sign
+    of the exact sum, hence inherits the table (stated for the positive case; the negative
+    one is symmetric through `Spec.roundQ`). -/
+theorem add_pos_inf_iff (a b : Flt) (rm : RM) (s : Bool) (hF : a.sem.WF) (hs : b.sem = a.sem)
+    (ha : a.Canonical) (hb : b.Canonical) (hfa : Spec.isFin a = true) (hfb : Spec.isFin b = true)
+    (hpos : 0 < a.val + b.val) :
+    (addWithRm a b rm).toRes = .inf s ↔
+      (s = false ∧
+        ((rm = .none ∧ (2:ℚ) ^ (a.sem.emax + 1) ≤ a.val + b.val) ∨
+         (rm.awayFor false ∧ maxFinite a.sem < a.val + b.val) ∨
+         ((rm = .nte ∨ rm = .nta) ∧ nearThreshold a.sem ≤ a.val + b.val))) := by
+  rw [C01.add_correct a b rm hF hs ha hb]
+  have hne : a.val + b.val ≠ 0 := ne_of_gt hpos
+  have hnz : ¬ (Spec.isZero a = true ∧ Spec.isZero b = true) := by
+    rintro ⟨h1, h2⟩
+    have e1 : a.val = 0 := by
+      unfold Spec.isZero at h1; unfold Flt.val; cases hc : a.cat <;> simp_all
+    have e2 : b.val = 0 := by
+      unfold Spec.isZero at h2; unfold Flt.val; cases hc : b.cat <;> simp_all
+    rw [e1, e2] at hne; simp at hne
+  have hA : Spec.add a.sem rm a b = Spec.round a.sem rm false (a.val + b.val) := by
+    unfold Spec.isFin at hfa hfb
+    unfold Spec.add Spec.roundQ
+    have n1 : Spec.isNan a = false := by unfold Spec.isNan; cases hc : a.cat <;> simp_all
+    have n2 : Spec.isNan b = false := by unfold Spec.isNan; cases hc : b.cat <;> simp_all
+    have i1 : Spec.isInf a = false := by unfold Spec.isInf; cases hc : a.cat <;> simp_all
+    have i2 : Spec.isInf b = false := by unfold Spec.isInf; cases hc : b.cat <;> simp_all
+    simp only [n1, n2, i1, i2, Bool.or_self, Bool.false_eq_true, if_false, Bool.and_self]
+    have z : ¬ ((Spec.isZero a && Spec.isZero b && (a.sign == b.sign)) = true) := by
+      intro h
+      simp only [Bool.and_eq_true] at h
+      exact hnz ⟨h.1.1, h.1.2⟩
+    rw [if_neg z, if_neg hne, if_pos hpos]
+  rw [hA]
+  exact round_inf_iff hF hpos rm false s
+
+/-- non-vacuity: FP16, mode Zero, `60000·60000` saturates to `65504 = 0x7ff·2^5`;
+    under nearest-even it is `+inf`. -/
+example : (mulWithRm ⟨FP16, false, 15, 0x753, .normal⟩ ⟨FP16, false, 15, 0x753, .normal⟩ .zero).toRes
+    = .fin false 15 0x7ff := by decide
+example : (mulWithRm ⟨FP16, false, 15, 0x753, .normal⟩ ⟨FP16, false, 15, 0x753, .normal⟩ .nte).toRes
+    = .inf false := by decide
+
 end Arp.C02
